@@ -40,7 +40,16 @@ type C17Spec struct {
 	Commas       int      `json:"commas,omitempty"`        // 1 trailing, 2 leading, 3 doubled comma in class lists (empty elements name no class)
 	BlankExclude bool     `json:"blank_exclude,omitempty"` // --exclude=" ": an explicit list naming no class (exclude nothing)
 	TapeSeed     uint64   `json:"tape_seed"`
+	// the word file and the process environment are the CLI's "disk" and "peers": white space of every
+	// Unicode kind between the words, no final newline, a file larger than any plausible read limit
+	// (padding of blanks in front of the last word), an unrelated regular file on standard input
+	FileSep   int  `json:"file_sep,omitempty"`    // 0: newline or blank by Style; k>0: fileSeps[k-1]
+	NoFinalNL bool `json:"no_final_nl,omitempty"` // the file ends with its last word
+	PadMiB    int  `json:"pad_mib,omitempty"`     // MiB of blanks and newlines in front of the last word
+	StdinFile bool `json:"stdin_file,omitempty"`  // standard input is a regular file with three words in it
 }
+
+var fileSeps = []string{"\u00a0", "\u2028", "\u3000", "\u0085", "\t\r\n", "\u2003\n", "\v\f"}
 
 var classBits = map[string]uint32{"uppercase": 1, "lowercase": 2, "digits": 4, "symbols": 8, "ambiguous": 16}
 var classNames = []string{"uppercase", "lowercase", "digits", "symbols", "ambiguous"}
@@ -134,6 +143,15 @@ func genC17(r *Rng, seed uint64) *C17Spec {
 				}
 			}
 		}
+		if s.File == "valid" || s.File == "dups" {
+			if r.Chance(0.3) {
+				s.FileSep = 1 + r.Intn(len(fileSeps))
+			}
+			s.NoFinalNL = r.Chance(0.3)
+			if r.Chance(0.04) {
+				s.PadMiB = pick(r, []int{2, 9, 17, 33})
+			}
+		}
 		if r.Chance(0.6) {
 			s.Sep = pick(r, []string{"hyphen", "space", "comma", "period", "underscore", "digit", "none"})
 		}
@@ -142,6 +160,7 @@ func genC17(r *Rng, seed uint64) *C17Spec {
 		}
 	}
 	s.Entropy = r.Chance(0.2)
+	s.StdinFile = r.Chance(0.15)
 	if r.Chance(0.06) {
 		s.BadFlag = pick(r, []string{"--bogus", "--lenght=3", "-x", "--separator-char=-"})
 	}
@@ -478,7 +497,28 @@ func runC17(c *Ctx, si interface{}) {
 		if s.Style&1 == 1 || s.File == "longline" {
 			sepr = " "
 		}
-		os.WriteFile(filePath, []byte(strings.Join(s.Words, sepr)+"\n"), 0600)
+		if s.FileSep > 0 && s.FileSep <= len(fileSeps) {
+			sepr = fileSeps[s.FileSep-1]
+		}
+		content := strings.Join(s.Words, sepr)
+		if s.PadMiB > 0 {
+			// the last word sits behind PadMiB of blank lines
+			k := strings.LastIndex(content, sepr)
+			pad := strings.Repeat("          \n", s.PadMiB<<20/11+1)
+			if k >= 0 {
+				content = content[:k] + sepr + pad + content[k+len(sepr):]
+			} else {
+				content = pad + content
+			}
+			c.Fault("file_padded_beyond_read_limits", 1)
+		}
+		if !s.NoFinalNL {
+			content += "\n"
+		}
+		if s.FileSep > 0 {
+			c.Fault("file_unicode_white_space", 1)
+		}
+		os.WriteFile(filePath, []byte(content), 0600)
 	case "empty":
 		os.WriteFile(filePath, nil, 0600)
 	case "whitespace":
@@ -495,6 +535,16 @@ func runC17(c *Ctx, si interface{}) {
 	cmd.Env = []string{"VERIF_TAPE=" + tapePath, "VERIF_TAPE_USED=" + usedPath, "PATH=/usr/bin:/bin"}
 	var so, se bytes.Buffer
 	cmd.Stdout, cmd.Stderr = &so, &se
+	if s.StdinFile {
+		// an unrelated regular file inherited as standard input (a `while read ...; done < users.txt` loop)
+		inPath := filepath.Join(dir, "stdin.txt")
+		os.WriteFile(inPath, []byte("alice bob carol\n"), 0600)
+		if f, err := os.Open(inPath); err == nil {
+			defer f.Close()
+			cmd.Stdin = f
+			c.Fault("stdin_is_a_regular_file", 1)
+		}
+	}
 	runErr := cmd.Run()
 	exit := 0
 	if ee, ok := runErr.(*exec.ExitError); ok {
